@@ -53,6 +53,16 @@ class ReplayRng(SymRng):
         self.n += 1
         return v
 
+    def random(self, size=None):
+        import numpy as np
+        if size is None:
+            return self._fresh(0, 1)
+        shape = (size,) if isinstance(size, int) else tuple(size)
+        out = np.empty(shape, dtype=object)
+        for i in np.ndindex(*shape):
+            out[i] = self._fresh(0, 1)
+        return out
+
 
 def make_env(H, W, stochastic, counter):
     types = [Floor, Wall, Exit, Key, MovingObstacle]
